@@ -116,7 +116,7 @@ ValM(D, name, var, depth) ==
 
 OptAlts == << [O0 EXCEPT !.rev = TRUE], [O0 EXCEPT !.pack = "all"], [O0 EXCEPT !.pack = "none"], [O0 EXCEPT !.dflt = TRUE],
               [O0 EXCEPT !.mapswap = TRUE], [O0 EXCEPT !.split = TRUE],
-              [rev |-> TRUE, pack |-> "all", dflt |-> TRUE, mapswap |-> TRUE, split |-> TRUE] >>
+              [rev |-> TRUE, pack |-> "all", dflt |-> TRUE, mapswap |-> TRUE, split |-> TRUE, unk |-> <<>>] >>
 OptNames == <<"reversed", "all-packed", "none-packed", "explicit-defaults", "map-value-first", "split-embedded", "everything">>
 
 \* a conforming encoder may write any varint (key, length prefix, value) in a NON-MINIMAL form: the last byte gets its
@@ -216,7 +216,18 @@ CasesOfMsg(D, m) ==
                                     ELSE KeyBytes(f.tag, WT_LEN) \o LenPrefix(Len(body(u))) \o body(u)
                      IN [u \in 1..Len(Unknowns) |->
                            Case(D.name, name, "unknown", "nested-" \o UnkNames[u], InsertSeq([ra EXCEPT ![i] = part(u)], 0, <<>>), encs[2], <<>>, <<>>)]
-  IN IF Assert(thm, <<"Dec(Enc(x)) # x", D.name, name>>) THEN canon \o alts \o padded \o widened \o merges \o unk \o nested ELSE <<>>
+      \* unknown field inside every MAP ENTRY (an entry is a message of its own: numbers other than 1 and 2 are unknown to it),
+      \* entries in either internal order
+      hasmap == \E i \in 1..Len(vals[2].fs) : vals[2].fs[i].x.k = "pmap"
+      inentry == IF ~hasmap THEN <<>>
+                 ELSE [q \in 1..(2 * Len(Unknowns)) |->
+                         LET u == ((q - 1) \div 2) + 1
+                             o == [O0 EXCEPT !.unk = Unknowns[u], !.mapswap = (q % 2 = 0)]
+                             e == EncMsg(D, name, vals[2], o)
+                         IN IF Assert(Dec(D, name, e).v = Norm(D, name, vals[2].fs), <<"unknown field in a map entry changes the value", name, UnkNames[u]>>)
+                            THEN Case(D.name, name, "unknown", "in-map-entry-" \o UnkNames[u], e, encs[2], <<>>, <<>>)
+                            ELSE Case(D.name, name, "bad", "", <<>>, <<>>, <<>>, <<>>)]
+  IN IF Assert(thm, <<"Dec(Enc(x)) # x", D.name, name>>) THEN canon \o alts \o padded \o widened \o merges \o unk \o nested \o inentry ELSE <<>>
 
 RECURSIVE CasesOfSchema(_, _)
 CasesOfSchema(D, i) == IF i > Len(D.messages) THEN <<>> ELSE CasesOfMsg(D, D.messages[i]) \o CasesOfSchema(D, i + 1)
